@@ -933,7 +933,7 @@ type driverContextLigature struct {
 func (driverContextLigature) inPlace() bool { return false }
 
 func (driverContextLigature) isActionable(_ stateTableDriver, entry tables.AATStateEntry) bool {
-	return entry.Flags&tables.MLOffset != 0
+	return entry.Flags&tables.MLPerformAction != 0
 }
 
 func (dc *driverContextLigature) transition(driver stateTableDriver, entry tables.AATStateEntry) {
